@@ -396,6 +396,115 @@ func (fa *frameAnalysis) run() {
 			}
 		}
 	}
+	// foreign byte buffers: append(dst, ...) on a []byte may write behind len(dst) into dst's backing
+	// array. That is harmless for a buffer the function allocated (or was handed as a parameter by
+	// its caller, who owns it), and a write into memory the statement does not own when dst came
+	// out of an evaluation, a type assertion or a storage call: two statements over one store would
+	// both write behind the same stored slice (seeded change C01-3).
+	var foreign func(v ssa.Value, depth int) bool
+	inCallee := map[*ssa.Function]bool{}
+	// result idx of a call: fresh when the callee is another package's function (json.Marshal,
+	// strconv: fresh buffers) or a function of this package every return of which yields a fresh
+	// buffer at idx; foreign for interface calls (evaluation results) and everything else.
+	foreignResult := func(c *ssa.Call, idx int, depth int) bool {
+		callee := c.Call.StaticCallee()
+		if callee == nil {
+			return true
+		}
+		if callee.Pkg != fa.p.SPkg {
+			return false
+		}
+		if callee.Blocks == nil || inCallee[callee] || depth > 6 {
+			return true
+		}
+		inCallee[callee] = true
+		defer delete(inCallee, callee)
+		for _, b := range callee.Blocks {
+			for _, ins := range b.Instrs {
+				if r, ok := ins.(*ssa.Return); ok && idx < len(r.Results) && foreign(r.Results[idx], depth+2) {
+					return true
+				}
+			}
+		}
+		return false
+	}
+	foreign = func(v ssa.Value, depth int) bool {
+		if depth > 8 {
+			return false
+		}
+		switch x := v.(type) {
+		case *ssa.Extract:
+			if c, ok := x.Tuple.(*ssa.Call); ok {
+				return foreignResult(c, x.Index, depth)
+			}
+			return foreign(x.Tuple, depth+1)
+		case *ssa.Parameter:
+			return inCallee[x.Parent()] // the caller's buffer: foreign when handed back by a callee
+		case *ssa.TypeAssert, *ssa.Lookup, *ssa.Field:
+			return true
+		case *ssa.Call:
+			if b, ok := x.Call.Value.(*ssa.Builtin); ok && b.Name() == "append" {
+				return foreign(x.Call.Args[0], depth+1)
+			}
+			if callee := x.Call.StaticCallee(); callee != nil {
+				n := callee.String()
+				if strings.Contains(n, ".Append") || strings.HasPrefix(n, "strconv.Append") || strings.HasPrefix(n, "fmt.Append") {
+					for _, a := range x.Call.Args { // (the receiver comes first for methods)
+						if isByteSlice(a.Type()) {
+							return foreign(a, depth+1)
+						}
+					}
+					return false
+				}
+			}
+			return foreignResult(x, 0, depth)
+		case *ssa.UnOp:
+			if al, ok := x.X.(*ssa.Alloc); ok {
+				for _, r := range *al.Referrers() {
+					if st, ok := r.(*ssa.Store); ok && st.Addr == al && foreign(st.Val, depth+1) {
+						return true
+					}
+				}
+				return false
+			}
+			return true // a load from the heap
+		case *ssa.Phi:
+			for _, e := range x.Edges {
+				if foreign(e, depth+1) {
+					return true
+				}
+			}
+			return false
+		case *ssa.Slice:
+			return foreign(x.X, depth+1)
+		case *ssa.ChangeType:
+			return foreign(x.X, depth+1)
+		}
+		return false // make, literals, conversions from string, parameters
+	}
+	for _, fn := range fs {
+		if fn.Name() == "init" || strings.HasPrefix(fn.Name(), "init#") {
+			continue
+		}
+		for _, b := range fn.Blocks {
+			for _, ins := range b.Instrs {
+				c, ok := ins.(*ssa.Call)
+				if !ok {
+					continue
+				}
+				bi, ok := c.Call.Value.(*ssa.Builtin)
+				if !ok || bi.Name() != "append" || len(c.Call.Args) == 0 || !isByteSlice(c.Call.Args[0].Type()) {
+					continue
+				}
+				fa.obligation++
+				fa.perFunc[funcKey(fn)]++
+				if foreign(c.Call.Args[0], 0) {
+					pos := fa.p.Prog.Fset.Position(ins.Pos())
+					fa.violations = append(fa.violations, fmt.Sprintf("%s: appends in place to a byte buffer it does not own (%s)  [%s:%d]", funcKey(fn), c.Call.Args[0].Name(), filepath.Base(pos.Filename), pos.Line))
+				}
+			}
+		}
+	}
 	// obligations
 	for _, fn := range fs {
 		key := funcKey(fn)
@@ -579,7 +688,7 @@ func cmdCheckC19(tier string, seed int) int {
 	ev := map[string]any{
 		"property_id": prop, "tier": tier, "seed": seed, "level": "other", "wall_s": time.Since(t0).Seconds(), "violations": len(fa.violations),
 		"coverage": map[string]any{
-			"explanation": "Frame (ownership) theorem over the go/ssa form of every function of the package: each instruction that can write memory (Store, MapUpdate, append/copy/delete/clear, calls with a write summary, non-pure external calls) is an obligation, discharged when its target is neither a package-level variable nor reachable from one (taint fixpoint with interprocedural summaries). A second rule covers escape: no function returns an object reachable from a package-level variable when the package's own exported API writes objects of that type through a receiver or parameter (a client calling BindQuery / SetPadding on such an object would write shared memory) - provenance is followed through local cells, calls and the initialiser. With no writes to shared library state outside the registration API, statements that own their plan, AST and ExecuteCtx share only immutable memory; under the Go memory model that excludes data races for every schedule, and determinism of each statement is what the other properties' postconditions state. No schedule is explored: this family cannot do that.",
+			"explanation": "Frame (ownership) theorem over the go/ssa form of every function of the package: each instruction that can write memory (Store, MapUpdate, append/copy/delete/clear, calls with a write summary, non-pure external calls) is an obligation, discharged when its target is neither a package-level variable nor reachable from one (taint fixpoint with interprocedural summaries). A second rule covers escape: no function returns an object reachable from a package-level variable when the package's own exported API writes objects of that type through a receiver or parameter (a client calling BindQuery / SetPadding on such an object would write shared memory) - provenance is followed through local cells, calls and the initialiser. With no writes to shared library state outside the registration API, statements that own their plan, AST and ExecuteCtx share only immutable memory; under the Go memory model that excludes data races for every schedule, and determinism of each statement is what the other properties' postconditions state. A third rule covers byte buffers: append to a []byte writes behind its length, so the destination must be a buffer the function owns, not one obtained from an evaluation, a type assertion or storage. No schedule is explored: this family cannot do that.",
 			"obligations": fa.obligation, "discharged": fa.obligation - len(fa.violations),
 			"checker_cmd": "/verif/bin/kvc check C19 --tier " + tier,
 			"trusted_base": []string{"T-SSA: go/ssa build of the package", "the taint analysis of /verif/engine/cmd/kvc/frame.go (syntactic back end, no solver)"},
@@ -592,6 +701,7 @@ func cmdCheckC19(tier string, seed int) int {
 			"callers do not register functions (AddScalarFunction / AddAggrFunction) or change the package switches (PlanBatchSize, EnableFieldCache, DefaultErrorPadding) while statements run",
 			"instances from regexp, encoding/json, strconv and perks/quantile are not shared between statements (they are created per call / per plan)",
 			"a correctly lock-protected plain global introduced later would be reported although the property still held (stated limit of the method)",
+			"byte buffers: every append to a []byte must target a buffer the function owns (make, literal, conversion, own parameter, fresh callee result); ownership is syntactic - a buffer that is leaked and appended to afterwards, and writes through index expressions into slices obtained from storage, are covered only by the generic shared-target rule",
 		},
 	}
 	os.MkdirAll(filepath.Join(verifDir(), "evidence"), 0o755)
